@@ -217,6 +217,23 @@ def reviveMods (fuel : Nat) (x : Nat) : List Nat → State → Res
     | .ok s' => reviveMods fuel x gs s'
     | r => r
 
+/-- Every live leaf.  Accounts and persons are dynamic members of the built-in dynamic groups
+`idm_all_persons` / `idm_all_accounts`; those groups are therefore in the
+recycled_directmemberof of every deleted leaf. -/
+def leafIds (s : State) : List Nat := (s.filter (fun e => !e.grp && e.live)).map (·.id)
+
+/-- `revive_recycled`, after the entry is live again: one `internal_modify` per group of
+recycled_directmemberof, in uuid order.  For a leaf the built-in dynamic groups come first
+(their uuids are the lowest): a modify of a dynamic group makes `DynGroup::post_modify`
+re-evaluate it (`apply_dyngroup_change`) and mark *all* its members affected, so every live
+leaf is recomputed; then the static groups. -/
+def reviveTail (fuel : Nat) (x : Nat) (e : Entry) (s' : State) : Res :=
+  if e.grp then reviveMods fuel x e.rdmo s'
+  else
+    match applyMemberOf fuel s' (leafIds s') with
+    | none => .diverge
+    | some s'' => reviveMods fuel x e.rdmo s''
+
 def opRevive (fuel : Nat) (s : State) (x : Nat) : Res :=
   match find s x with
   | none => .err
@@ -226,7 +243,7 @@ def opRevive (fuel : Nat) (s : State) (x : Nat) : Res :=
       match applyMemberOf fuel
           (s.map (fun e' => if e'.id == x then { e' with live := true, rdmo := [] } else e')) [x] with
       | none => .diverge
-      | some s' => reviveMods fuel x e.rdmo s'
+      | some s' => reviveTail fuel x e s'
 
 def step (fuel : Nat) (s : State) : Op → Res
   | .create id grp ms => opCreate fuel s id grp ms
